@@ -572,7 +572,9 @@ class PGPSignature(Armorable, ParentRef, PGPObject):
         onepass.sigtype = self.type
         onepass.halg = self.hash_algorithm
         onepass.pubalg = self.key_algorithm
-        onepass.signer = self.signer
+        # a signature need not name its issuer (RFC 4880 requires no Issuer subpacket); the one-pass packet has a
+        # fixed eight-octet key id field, which then holds the wildcard key id zero (RFC 4880 5.1)
+        onepass.signer = self.signer or '0' * 16
         onepass.update_hlen()
         return onepass
 
